@@ -8,5 +8,5 @@ CONSTANTS
   AllocBelow = 1
   AllocAbove = 1
   ByteSized = FALSE
-  Lifetime = FALSE
+  Lifetime = TRUE
 INVARIANTS TypeOK Bounded LastAgrees
